@@ -842,8 +842,14 @@ fn run(op: &Value) -> Value {
                 let out = conjure_serde::json::to_string(&m).unwrap();
                 let exp = match want { Some(w) => format!("{{\"{}\":true}}", w), None => format!("{{\"{}\":true}}", v) };
                 let back = conjure_serde::json::client_from_str::<std::collections::BTreeMap<conjure_object::DoubleKey, bool>>(&out);
-                let back_ok = back.map(|b| b.keys().next().map(|k| k.0.to_bits() == v.to_bits() || (k.0.is_nan() && v.is_nan())).unwrap_or(false)).unwrap_or(false);
-                json!({"ok": out == exp && back_ok, "out": out})
+                type M = std::collections::BTreeMap<conjure_object::DoubleKey, bool>;
+                let same = |b: M| b.keys().next().map(|k| k.0.to_bits() == v.to_bits() || (k.0.is_nan() && v.is_nan())).unwrap_or(false);
+                let back_ok = back.map(same).unwrap_or(false);
+                // the same key through the server flavour and through Smile (client and server)
+                let back_srv = conjure_serde::json::server_from_str::<M>(&out).map(same).unwrap_or(false);
+                let sm = conjure_serde::smile::to_vec(&m).unwrap();
+                let back_smile = conjure_serde::smile::client_from_slice::<M>(&sm).map(same).unwrap_or(false) && conjure_serde::smile::server_from_slice::<M>(&sm).map(same).unwrap_or(false);
+                json!({"ok": out == exp && back_ok && back_srv && back_smile, "out": out, "json_client": back_ok, "json_server": back_srv, "smile": back_smile})
             } else {
                 let out = conjure_serde::json::to_string(&v).unwrap();
                 let exp = match want { Some(w) => format!("\"{}\"", w), None => serde_json::to_string(&v).unwrap() };
